@@ -56,6 +56,7 @@ JudgeAll ==
                          ELSE ~sk /\ ~(Inv_C06a(g1, K) /\ Inv_C06b(g1)) IN
              [g |-> g1, skip |-> sk, bad |-> IF viol THEN acc.bad \cup {e.seq} ELSE acc.bad],
            [g |-> InitGhost({}, {}), skip |-> FALSE, bad |-> {}], Steps).bad
+DivSample == FirstN(Divergent, 12)
 Report == [ steps |-> Len(Steps),
             bad_seqs |-> IF IOEnv.PM_JUDGE = "" THEN <<>> ELSE SetToSeq(JudgeAll),
             accepted |-> Cardinality({i \in Idx : Steps[i].resp.ok}),
@@ -63,7 +64,7 @@ Report == [ steps |-> Len(Steps),
             in_flight_steps |-> Cardinality({i \in Idx : InFlight(Steps[i].post)}),
             stale_steps |-> Cardinality({i \in Idx : StaleStep(Steps[i])}),
             ndivergent |-> Cardinality(Divergent),
-            divergences |-> [i \in DOMAIN FirstN(Divergent, 12) |-> Describe(FirstN(Divergent, 12)[i])],
+            divergences |-> LET q == DivSample IN [i \in DOMAIN q |-> Describe(q[i])],
             broken |-> Cardinality(Broken) ]
 ASSUME JsonSerialize(IOEnv.PM_REPORT, Report)
 =============================================================================
